@@ -170,6 +170,22 @@ func ZZ_C01_Shapes() {
 		zzCheckMessage(pm.Message(tc), []uint16{ta}, []zzVal{va})
 		cl := pm.Clone()
 		zzverif.Assert(cl.Fields() == 1 && va.reads(cl.Message(tc).Field(ta)), "clone")
+		// CloneTo into a caller-provided slice: none, too short, exactly as long, longer (recycled scratch)
+		var dst []byte
+		switch zzverif.Choice(4) {
+		case 1:
+			dst = make([]byte, 1)
+		case 2:
+			dst = make([]byte, len(pm.Raw()))
+		case 3:
+			dst = make([]byte, len(pm.Raw())+3)
+		}
+		for i := range dst {
+			dst[i] = 0xee
+		}
+		c2 := pm.CloneTo(dst)
+		zzverif.Assert(c2.Fields() == 1 && va.reads(c2.Message(tc).Field(ta)), "clone-to")
+		zzverif.Assert(string(c2.Raw()) == string(pm.Raw()), "clone-to-bytes")
 		w2.Free()
 
 	case 7: // Copy/Merge: A = message{ta: va, tb: vb}; B = message{td: vd}; B.Copy(A)
@@ -340,8 +356,13 @@ func ZZ_C01_MsgTable() {
 	buf := buffer.New()
 	sz, err := encode.EncodeMessageTable(buf, int(dataSize), table)
 	zzverif.Assert(err == nil && sz == buf.Len(), "encode-ok")
-	// the decoder needs dataSize bytes of body in front of the table
-	zzverif.Assume(dataSize <= 4)
+	// the decoder needs dataSize bytes of body in front of the table: a symbolic small size, or one
+	// of the size-class boundary values (parameter DS)
+	if ds := zzverif.Param("DS"); ds >= 0 {
+		zzverif.Assume(dataSize == uint32(ds))
+	} else {
+		zzverif.Assume(dataSize <= 4)
+	}
 	b := append(make([]byte, dataSize), buf.Bytes()...)
 	t, size, err := decode.DecodeMessageTable(b)
 	zzverif.Assert(err == nil, "decode-ok")
@@ -373,7 +394,11 @@ func ZZ_C01_ListTable() {
 		}
 	}
 	dataSize := zzverif.Uint32()
-	zzverif.Assume(dataSize <= 4)
+	if ds := zzverif.Param("DS"); ds >= 0 {
+		zzverif.Assume(dataSize == uint32(ds))
+	} else {
+		zzverif.Assume(dataSize <= 4)
+	}
 	buf := buffer.New()
 	sz, err := encode.EncodeListTable(buf, int(dataSize), table)
 	zzverif.Assert(err == nil && sz == buf.Len(), "encode-ok")
